@@ -34,7 +34,7 @@ ASSUMPTIONS = [
 ]
 REQUIRED_CLAUSES = ["failure-reaches-race-control", "never-success", "no-results-stored", "no-summary-printed", "bounded-time", "baseline-succeeds"]
 KINDS = ["http-abort", "http-400-abort", "refused-continue", "params-raise", "partition-raise", "runner-keyerror", "runner-exception", "store-raises",
-         "prepare-task-raises", "prepare-handler-raises", "worker-dies", "cancel", "timeout-abort"]
+         "prepare-task-raises", "prepare-handler-raises", "worker-dies", "cancel", "timeout-abort", "http-status-abort"]
 REQUIRED_FEATURES = {"kind:" + k: 2 for k in KINDS}
 REQUIRED_FEATURES["driver-profiling-on"] = 5
 BUDGET = {"quick": {"cases": 1500, "seconds": 34}, "thorough": {"cases": 40000, "seconds": 700}}
@@ -45,6 +45,14 @@ def T(name, clients, base=0.05, **kw):
     d = {"name": name, "clients": clients, "requests": [[{"wire": 1}]], "svc": {"mode": "const", "base": base, "seed": 1}}
     d.update(kw)
     return d
+
+
+def R(name, real_op, clients=1, iterations=1):
+    return {"name": name, "clients": clients, "warmup_iterations": 0, "iterations": iterations, "requests": [[{"wire": 1}]], "real_op": real_op,
+            "svc": {"mode": "const", "base": 0.05, "seed": 1}}
+
+
+STATUSES = [400, 404, 408, 409, 429, 500, 503, "timeout"]
 
 
 def base_cases():
@@ -58,6 +66,14 @@ def base_cases():
         dict(common, seed=103, cores=2, hosts=["localhost", "10.0.0.2"], test_mode=False, elements=[
             {"parallel": True, "clients_cap": 2, "tasks": [T("a", 2, base=0.6, warmup_iterations=0, iterations=2), T("b", 2, warmup_iterations=0, iterations=2)]},
             {"tasks": [T("c", 4, base=7.0, warmup_iterations=0, iterations=5)]}]),
+        # rally's own operation types with their registered runners (cluster-health, refresh and force-merge sit behind runner.Retry)
+        dict(common, seed=105, cores=1, hosts=["localhost"], elements=[
+            {"tasks": [R("health", {"operation-type": "cluster-health", "request-params": {"wait_for_status": "green"}, "retry-until-success": False})]},
+            {"tasks": [R("refresh", {"operation-type": "refresh", "index": "idx"}, clients=2)]},
+            {"tasks": [R("health-retries", {"operation-type": "cluster-health", "retries": 2, "retry-wait-period": 0.1, "retry-until-success": False}, iterations=2)]},
+            {"tasks": [R("merge", {"operation-type": "force-merge", "index": "idx"})]},
+            {"tasks": [R("search", {"operation-type": "search", "index": "idx", "body": {"query": {"match_all": {}}}}, iterations=2)]},
+            {"tasks": [R("raw", {"operation-type": "raw-request", "path": "/_verif/raw", "method": "GET"})]}]),
         dict(common, seed=104, cores=1, hosts=["localhost"], test_mode=False, delay="adversarial", elements=[
             {"tasks": [T("a", 1, base=2.0, warmup_time_period=0, time_period=70)]}, {"tasks": [T("b", 1, warmup_iterations=0, iterations=2)]}]),
     ]
@@ -103,7 +119,24 @@ class Injector:
             except Exception:
                 return False
 
-        if kind in ("http-abort", "http-400-abort", "refused-continue", "timeout-abort"):
+        if kind == "http-status-abort":
+            inner = sim.script
+
+            def script(rec):
+                out = inner(rec)
+                # every wire request of that logical request is answered with the status (the transport itself retries 429/502/503/504)
+                if rec["task"] == f["task"] and rec["client"] == f["phys_client"] and rec["logical"] == f["ordinal"]:
+                    if me.fired_at is None:
+                        me.fired_at = k.clock.now
+                    if f["status"] == "timeout":
+                        out.fail = "timeout"
+                    else:
+                        out.status, out.body = f["status"], b'{"error":{"type":"verif","reason":"simulated"},"status":%d}' % f["status"]
+                    out.before_headers = out.before_body = 0.0
+                return out
+
+            sim.script = script
+        elif kind in ("http-abort", "http-400-abort", "refused-continue", "timeout-abort"):
             inner = sim.script
 
             def script(rec):
@@ -214,12 +247,16 @@ def failing_task():
 
 
 # ------------------------------------------------------------------------------------------------------------ one faulted race
-def run_faulted(ctx, case, fault, problems):
+def run_faulted(ctx, case, fault, problems, base_steps=None):
     import time as _t
 
     inj = Injector(fault)
-    on_error = "abort" if fault["kind"] in ("http-abort", "http-400-abort", "timeout-abort") else "continue"
+    on_error = "abort" if fault["kind"] in ("http-abort", "http-400-abort", "timeout-abort", "http-status-abort") else "continue"
     run_case = dict(case, on_error=on_error, wall_deadline=_t.monotonic() + max(15.0, ctx.time_left() + 10.0))
+    if base_steps:
+        # a faulted race has no reason to need many more kernel events than its fault-free twin (waiting for a dead worker costs one
+        # driver tick per virtual second until the stall horizon): 40x is the livelock bound
+        run_case["max_steps"] = max(20000, 40 * base_steps)
     extra = ["--enable-driver-profiling"] if fault.get("profiling") else []
     try:
         tr = race.run_race(run_case, ctx.scratch, extra_args=extra, faults=inj.install, instrument=c01.instrument)
@@ -272,11 +309,21 @@ def points_for(case, base_tr, rng, exhaustive):
         for kind in ("http-abort", "http-400-abort", "timeout-abort", "refused-continue", "params-raise", "runner-keyerror", "runner-exception"):
             if not exhaustive and rng.random() < 0.6:
                 continue
+            if any(t.get("real_op") for el in case["elements"] for t in el["tasks"] if t["name"] == e["task"]):
+                # rally's own runners get the persistent fault family below: a fault that hits one attempt only is, behind runner.Retry with
+                # retries > 0, recovered by design and no failure at all; the other kinds live in the harness's runner / parameter source
+                continue
             faults.append({"kind": kind, "task": e["task"], "phys_client": e["client"], "client": idx, "ordinal": e["ordinal"]})
             if (j + len(faults)) % 5 == 0:
                 # the same fault with the rarely used driver profiling switched on (every executor runs inside AsyncProfiler)
                 faults.append({"kind": kind, "task": e["task"], "phys_client": e["client"], "client": idx, "ordinal": e["ordinal"], "profiling": True})
-    tasks = sorted({e["task"] for e in logical})
+    real = {t["name"] for el in case["elements"] for t in el["tasks"] if t.get("real_op")}
+    for j in req_points:
+        e = logical[j]
+        if e["task"] in real:
+            for status in STATUSES:
+                faults.append({"kind": "http-status-abort", "status": status, "task": e["task"], "phys_client": e["client"], "client": runs[e["run"]]["index_in_task"], "ordinal": e["ordinal"]})
+    tasks = sorted({e["task"] for e in logical} - real)
     for t in (tasks if exhaustive else tasks[:1]):
         faults.append({"kind": "partition-raise", "task": t})
     n_store = 4 * len(base_tr.rec.samples)
@@ -315,7 +362,7 @@ def run_shard(ctx):
             if _t.monotonic() > ctx.deadline + 20:
                 done_exhaustive = False
                 break
-            one_fault(ctx, case, fault, f"base{bi}")
+            one_fault(ctx, case, fault, f"base{bi}", base_steps=base_tr.kernel.steps)
     ctx.exhaustive["base-schedules: every request index x 7 request faults, every 3rd message index x {worker-dies,cancel}, every 3rd store call"] = done_exhaustive
     # ---- sampled part: generated cases
     i = 0
@@ -331,16 +378,30 @@ def run_shard(ctx):
         for fault in points_for(case, base_tr, rng, exhaustive=False):
             if not ctx.more():
                 break
-            one_fault(ctx, case, fault, "generated")
+            one_fault(ctx, case, fault, "generated", base_steps=base_tr.kernel.steps)
 
 
-def one_fault(ctx, case, fault, origin):
+def one_fault(ctx, case, fault, origin, base_steps=None):
     problems = []
-    tr, inj = run_faulted(ctx, case, fault, problems)
+    tr, inj = run_faulted(ctx, case, fault, problems, base_steps)
     feats = {"kind:" + fault["kind"], "origin:" + origin}
     if fault.get("profiling"):
         feats.add("driver-profiling-on")
     if tr.budget:
+        k = tr.kernel
+        if k.budget_reason == "steps" and inj.was_fired and not inj.too_late and base_steps and k.max_steps >= 10 * base_steps and tr.benchmark_complete_sent_at is None:
+            # the same race without the fault needed base_steps kernel events; with the fault it is still busy after at least ten times as
+            # many: a livelock (e.g. a failure notification bouncing between two actors) never "ends the race as failed"
+            recent = {}
+            for d in k.deliveries[-3000:]:
+                recent[(d[1], d[2], d[3])] = recent.get((d[1], d[2], d[3]), 0) + 1
+            top = sorted(recent.items(), key=lambda kv: -kv[1])[:3]
+            ctx.clause("bounded-time")
+            ctx.case([case["seed"], fault], True, feats | {"livelock-after-fault"})
+            ctx.violation("bounded-time", {"case": case, "fault": fault, "detail": {"kind": fault["kind"], "livelock": True}},
+                          f"fault {json.dumps(fault)}: the race is still exchanging messages after {k.steps} kernel events at virtual second {k.clock.now:.1f} "
+                          f"(the fault-free race needed {base_steps}); most frequent recent deliveries (receiver, message, sender): {top}; race control heard {[m[1] for m in tr.to_racecontrol][-4:]}")
+            return
         ctx.feature("budget-exceeded")
         ctx.case([case["seed"], fault], False, ())
         return
@@ -373,15 +434,18 @@ def classify(v):
 
 
 def replay(ctx, rec):
+    import time as _t
+
     w = rec["witness"]
-    one_fault(ctx, w["case"], w["fault"], "replay")
+    base_tr = race.run_race(dict(w["case"], wall_deadline=_t.monotonic() + 60), ctx.scratch, instrument=c01.instrument)
+    one_fault(ctx, w["case"], w["fault"], "replay", base_steps=None if base_tr.budget else base_tr.kernel.steps)
 
 
 MANIFEST = {
     "text": "Fault enumeration: for four small base schedules every logical-request index x seven request-level faults, every third message index x {worker death, user "
     "cancellation}, every third store call and both track-preparation faults are injected (exhaustive for those schedules); generated schedules get sampled "
     "points; a fifth of the request-level faults also run with --enable-driver-profiling. Each faulted race runs through rally's real CLI/actors on the simulated kernel and is checked for: failure (or cancellation) reaches race control, "
-    "exit status ERROR/INTERRUPTED and never Success, no results in race.json, no summary printed, no stall.",
+    "exit status ERROR/INTERRUPTED and never Success, no results in race.json, no summary printed, no stall and no livelock (a faulted race that is still busy after ten times the kernel events of its fault-free twin).",
     "note": "Single faults only; same actor/ES model as C01; process death modelled as ChildActorExited without handlers.",
     "technique": "runtime monitor: terminal-state checker over traces of simulated races with one injected fault (fault points enumerated from the fault-free run)",
     "engines": ["vclock", "simactor", "simes", "race"],
